@@ -20,6 +20,11 @@ _JSON_COLS = {'input', 'output', 'params', 'context', 'runtime_context',
               'func_arg_serializers', 'serializers'}
 
 
+import re as _re
+_TABLES_RE = _re.compile(r'(?:FROM|INTO|UPDATE|JOIN)\s+"?([a-z_0-9]+)"?',
+                         _re.I)
+
+
 class Row(dict):
     """A snapshot row; JSON columns decoded lazily through .j(name)."""
     __slots__ = ('_cache',)
@@ -195,7 +200,8 @@ def install_hooks():
         if head not in ('SELECT', 'PRAGMA'):
             rec.dirty = True
         if rec.sql_events:
-            rec.emit('SQL', op=head.strip(), stmt=statement[:120])
+            rec.emit('SQL', op=head.strip(), stmt=statement[:120],
+                     tables=sorted(set(_TABLES_RE.findall(statement))))
 
     event.listen(engine, 'before_cursor_execute', before_cursor_execute)
 
